@@ -28,3 +28,32 @@ Proof. exact (conj retry_diamond retry_diamond_premises). Qed.
 Example C10_running_is_reset :
   setup_retry 3 [(0,1);(1,2)] (fun i => nth i [4;1;0] 0) = Some [1;2].
 Proof. exact running_is_reset. Qed.
+
+(* ---- execution part (on the step-scheduler transition system Sched/Model.v) ------------------------------
+   The retry starts the scheduler from the recorded table after the reset (`init_from`): steps recorded finished or
+   skipped and not reset are kept, every other step starts afresh.  `tbl_consistent` = every dependency of a kept
+   finished step let it proceed - what C01 guarantees for any table a run can record.  Premise `norepeat`: no
+   repeatPolicy step (as for C02/C03). *)
+From BD.Sched Require Import Model Proofs ProofsTerm ProofsRetry.
+From BD.Graph Require Import RetrySched.
+From BD.Sched Require Import Examples.
+
+(* Steps outside the retried part keep their recorded result and are never executed, in every execution. *)
+Theorem C10_keeps_finished : forall (c : cfg), norepeat c -> forall (tbl : nat -> nstatus), tbl_consistent c tbl ->
+  forall j ls s, tbl j = NSuccess \/ tbl j = NSkipped ->
+  run c (init_from c tbl) ls = Some s -> kept s j /\ ~ In (WExecStart j) ls.
+Proof. exact retry_keeps. Qed.
+Print Assumptions C10_keeps_finished.
+
+(* A command that starts in a retry belongs to a step that did not complete successfully (or was reset because it
+   is downstream of one: C10_reset_set says which). *)
+Theorem C10_executes_only_unfinished : forall (c : cfg), norepeat c -> forall (tbl : nat -> nstatus), tbl_consistent c tbl ->
+  forall j ls s, run c (init_from c tbl) ls = Some s -> In (WExecStart j) ls -> tbl j <> NSuccess /\ tbl j <> NSkipped.
+Proof. exact retry_executes_only_unfinished. Qed.
+Print Assumptions C10_executes_only_unfinished.
+
+(* The retry always terminates: every execution from the retry's start state is finite. *)
+Theorem C10_terminates : forall (c : cfg), norepeat c -> forall (tbl : nat -> nstatus), tbl_consistent c tbl ->
+  forall ls s, run c (init_from c tbl) ls = Some s -> length ls <= measure c (init_from c tbl).
+Proof. exact retry_finite. Qed.
+Print Assumptions C10_terminates.
